@@ -33,7 +33,8 @@ META = {
                    "'accepted => legal' and field equalities are unsat queries per path",
     "bounds": ["every table row x destination kinds (gear: short/group/broadcast/unaddressed/int; device: "
                "short/group/broadcast/unaddressed) x 9 instance kinds",
-               "numbers symbolic over ranges extending 2 below and several above the legal limits",
+               "numbers symbolic over ranges extending 2 below and several above the legal limits "
+               "(thorough: 70000 below and above)",
                "events: 11 classes x 5 schemes; AmbiguousInstanceType and UnknownEvent",
                "wrong-kind addresses and wrong-type arguments: concrete lists per argument position"],
     "stubs": ["isinstance/int shims", "SymDict registries", "SymKeyDict for the map in symbolic mode"],
@@ -42,6 +43,16 @@ META = {
                 "objects with address_obj (bus.Device duck type)"],
     "assumptions": [],
 }
+
+WIDE = {"on": False}
+
+
+def _rng(lo, hi):
+    """Argument range: thorough tier looks much further beyond the legal limits."""
+    if WIDE["on"]:
+        return lo - 70000, hi + 70000
+    return lo, hi
+
 
 GEAR_KINDS = ["short", "group", "broadcast", "unaddressed", "int"]
 DEV_KINDS = ["short", "group", "broadcast", "unaddressed"]
@@ -101,10 +112,10 @@ def _compare(ctx, c, d, tag):
 
 def _gear_dest(ctx, kind):
     if kind in ("short", "int"):
-        n = ctx.fresh("a", -2, 70)
+        n = ctx.fresh("a", *_rng(-2, 70))
         return (lambda: n if kind == "int" else A.GearShort(n)), E.between(0, n, 63)
     if kind == "group":
-        n = ctx.fresh("a", -2, 70)
+        n = ctx.fresh("a", *_rng(-2, 70))
         return (lambda: A.GearGroup(n)), E.between(0, n, 15)
     if kind == "broadcast":
         return (lambda: A.GearBroadcast()), True
@@ -113,10 +124,10 @@ def _gear_dest(ctx, kind):
 
 def _dev_dest(ctx, kind):
     if kind == "short":
-        n = ctx.fresh("a", -2, 70)
+        n = ctx.fresh("a", *_rng(-2, 70))
         return (lambda: A.DeviceShort(n)), E.between(0, n, 63)
     if kind == "group":
-        n = ctx.fresh("a", -2, 70)
+        n = ctx.fresh("a", *_rng(-2, 70))
         return (lambda: A.DeviceGroup(n)), E.between(0, n, 31)
     if kind == "broadcast":
         return (lambda: A.DeviceBroadcast()), True
@@ -126,7 +137,7 @@ def _dev_dest(ctx, kind):
 def _instance(ctx, kind):
     has, enc = T.INSTANCE[kind]
     if has:
-        n = ctx.fresh("i", -2, 40)
+        n = ctx.fresh("i", *_rng(-2, 40))
         return (lambda: INST_CLS[kind](n)), E.between(0, n, 31)
     return (lambda: INST_CLS[kind]()), True
 
@@ -145,13 +156,13 @@ def h_row(ctx, idx):
         if kind == "dapc":
             form = ctx.fresh_choice("pform", 3)
             if form == 0:
-                p = ctx.fresh("p", -2, 300)
+                p = ctx.fresh("p", *_rng(-2, 300))
                 legal = E.and_(legal, E.between(0, p, 255))
             else:
                 p = ["OFF", "MASK"][form - 1]
             build = lambda: cls(mk(), p)  # noqa
         elif param == "n4":
-            p = ctx.fresh("p", -2, 20)
+            p = ctx.fresh("p", *_rng(-2, 20))
             legal = E.and_(legal, E.between(0, p, 15))
             build = lambda: cls(mk(), p)  # noqa
         else:
@@ -160,14 +171,14 @@ def h_row(ctx, idx):
         if param is None:
             build = lambda: cls()  # noqa
         elif param == "byte":
-            p = ctx.fresh("p", -2, 300)
+            p = ctx.fresh("p", *_rng(-2, 300))
             legal = E.between(0, p, 255)
             build = lambda: cls(p)  # noqa
         elif param == "short":
             if ctx.fresh_bool("mask"):
                 build = lambda: cls("MASK")  # noqa
             else:
-                n = ctx.fresh("a", -2, 70)
+                n = ctx.fresh("a", *_rng(-2, 70))
                 legal = E.between(0, n, 63)
                 build = lambda: cls(n)  # noqa
         else:  # init
@@ -177,7 +188,7 @@ def h_row(ctx, idx):
             elif v == 1:
                 build = lambda: cls()  # noqa
             elif v == 2:
-                n = ctx.fresh("a", -2, 70)
+                n = ctx.fresh("a", *_rng(-2, 70))
                 legal = E.between(0, n, 63)
                 build = lambda: cls(address=n)  # noqa
             else:
@@ -199,12 +210,12 @@ def h_row(ctx, idx):
         if param is None:
             build = lambda: cls()  # noqa
         else:
-            p = ctx.fresh("p", -2, 300)
+            p = ctx.fresh("p", *_rng(-2, 300))
             legal = E.between(0, p, 255)
             build = lambda: cls(p)  # noqa
     else:  # dspecial2
-        p1 = ctx.fresh("p1", -2, 300)
-        p2 = ctx.fresh("p2", -2, 300)
+        p1 = ctx.fresh("p1", *_rng(-2, 300))
+        p2 = ctx.fresh("p2", *_rng(-2, 300))
         legal = E.and_(E.between(0, p1, 255), E.between(0, p2, 255))
         build = lambda: cls(p1, p2)  # noqa
     st, c = call(build)
@@ -226,20 +237,20 @@ SCHEMES = ["device", "device_instance", "device_group", "instance", "instance_gr
 def _event_kwargs(ctx, scheme):
     kw, legal = {}, True
     if scheme in ("device", "device_instance"):
-        sa = ctx.fresh("sa", -2, 70)
+        sa = ctx.fresh("sa", *_rng(-2, 70))
         obj = ctx.fresh_bool("sa_obj")
         kw["short_address"] = (lambda: A.DeviceShort(sa)) if obj else (lambda: sa)
         legal = E.and_(legal, E.between(0, sa, 63))
     if scheme in ("device_instance", "instance"):
-        n = ctx.fresh("n", -2, 40)
+        n = ctx.fresh("n", *_rng(-2, 40))
         kw["instance_number"] = lambda: n
         legal = E.and_(legal, E.between(0, n, 31))
     if scheme == "device_group":
-        g = ctx.fresh("g", -2, 40)
+        g = ctx.fresh("g", *_rng(-2, 40))
         kw["device_group"] = lambda: g
         legal = E.and_(legal, E.between(0, g, 31))
     if scheme == "instance_group":
-        g = ctx.fresh("g", -2, 40)
+        g = ctx.fresh("g", *_rng(-2, 40))
         kw["instance_group"] = lambda: g
         legal = E.and_(legal, E.between(0, g, 31))
     return kw, legal
@@ -271,10 +282,10 @@ def h_event(ctx, idx):
                 data = cls.EventData(movement=mv, occupied=oc, repeat=rp,
                                      sensor_type="movement" if mt else "presence")
             else:
-                data = ctx.fresh("d", -2, 1100)
+                data = ctx.fresh("d", *_rng(-2, 1100))
                 legal = E.and_(legal, E.between(0, data, 15))
         else:
-            data = ctx.fresh("d", -2, 1100)
+            data = ctx.fresh("d", *_rng(-2, 1100))
             legal = E.and_(legal, E.between(0, data, 1023))
         kw["data"] = lambda: data
     st, ev = call(lambda: cls(**{k: v() for k, v in kw.items()}))
@@ -295,9 +306,9 @@ def h_event(ctx, idx):
 def h_generic_event(ctx, which):
     """AmbiguousInstanceType and UnknownEvent (types without an implementation)."""
     if which == "ambiguous":
-        sa = ctx.fresh("sa", -2, 70)
-        n = ctx.fresh("n", -2, 40)
-        d = ctx.fresh("d", -2, 1100)
+        sa = ctx.fresh("sa", *_rng(-2, 70))
+        n = ctx.fresh("n", *_rng(-2, 40))
+        d = ctx.fresh("d", *_rng(-2, 1100))
         legal = E.and_(E.between(0, sa, 63), E.between(0, n, 31), E.between(0, d, 1023))
         st, ev = call(lambda: dg.AmbiguousInstanceType(short_address=A.DeviceShort(sa),
                                                        instance_number=n, data=d))
@@ -305,8 +316,8 @@ def h_generic_event(ctx, which):
     else:
         scheme = SCHEMES[ctx.fresh_choice("scheme", 5)]
         kw, legal = _event_kwargs(ctx, scheme)
-        t = ctx.fresh("t", -2, 40)
-        d = ctx.fresh("d", -2, 1100)
+        t = ctx.fresh("t", *_rng(-2, 40))
+        d = ctx.fresh("d", *_rng(-2, 1100))
         legal = E.and_(legal, E.between(0, d, 1023))
         if scheme != "device_instance":
             legal = E.and_(legal, E.between(0, t, 31))
@@ -418,6 +429,7 @@ def h_wrong(ctx, part):
 
 
 def cases(tier):
+    WIDE["on"] = tier == "thorough"
     cs = []
     for i, r in enumerate(T.ROWS):
         cs.append(Case("row-%d-%s" % (r[0], r[1]), h_row, {"idx": i}))
